@@ -6,7 +6,7 @@ from typing import Dict, List, Optional, Set
 
 from ..callgraph import all_nodes, get_cg
 from ..core import Ctx
-from ..flow import arg_of, call_name, get_flow
+from ..flow import arg_of, bound_args, call_name, get_flow
 from ..project import AnalysisError, FuncInfo, ancestors, dotted, parent, src
 
 LEVEL = 'other'
@@ -24,9 +24,9 @@ def _features(ctx: Ctx, f: FuncInfo) -> Dict[str, object]:
     svar = loop.target.id
     feats['_loop'] = loop
     # supplemental skip
-    feats['skips-supplemental-sources'] = any(isinstance(s, ast.Continue) and any(t.startswith(f"{svar}.get('_supplemental'") and tr
-                                                                                   for t, tr in fl.cfg.guard_literals_within(s, loop))
-                                              for s in fl.cfg.stmts() if any(a is loop for a in ancestors(s)))
+    pcs = [c for c in fl.calls('parse_generic_csv') if any(a is loop for a in ancestors(c))]
+    feats['skips-supplemental-sources'] = bool(pcs) and all(any(t.startswith(f"{svar}.get('_supplemental'") and not tr for t, tr in fl.cfg.guard_literals_within(fl.stmt_of(c), loop))
+                                                           for c in pcs)
     feats['loads-supplemental-data'] = bool(fl.calls('load_supplemental_sources'))
     feats['loads-transforms'] = bool(fl.calls('get_transforms'))
     # rules
@@ -34,7 +34,7 @@ def _features(ctx: Ctx, f: FuncInfo) -> Dict[str, object]:
     feats['loads-rules'] = bool(rules_calls)
     mode_ok = True
     for c in fl.calls('get_all_rules') + fl.calls('get_transforms'):
-        kw = {k.arg: k.value for k in c.keywords}
+        kw = bound_args(proj, f, c)
         if 'match_mode' not in kw or 'key:config:rule_mode' not in fl.atoms(kw['match_mode'], c):
             mode_ok = False
     feats['passes-rule-mode'] = mode_ok
@@ -66,7 +66,7 @@ def _features(ctx: Ctx, f: FuncInfo) -> Dict[str, object]:
     # other parsers
     for name in ('parse_amex', 'parse_boa'):
         cs = [c for c in fl.calls(name) if any(a is loop for a in ancestors(c))]
-        feats[f'{name}-args'] = tuple(sorted(k.arg for c in cs for k in c.keywords)) if cs else None
+        feats[f'{name}-args'] = tuple(sorted({k for c in cs for k in bound_args(proj, f, c)} - {'filepath', 'rules'})) if cs else None
     # every source contributes
     # is the list of parsed transactions reordered / filtered before it is analysed or listed?
     reorder = []
